@@ -666,10 +666,7 @@ def lexRead : Nat → Scan → Res Lex
         let t : Tok := if c == 10 || c == 13 then .ch 10 else .ch c
         match s.read with
         | (some nx, s1) =>
-          if c == 13 && nx == 10 then
-            match s1.readQ with
-            | .ok s2 => .ok { sc := s2, tok := t }
-            | _ => .err
+          if c == 13 && nx == 10 then .ok { sc := s1.advance, tok := t }
           else .ok { sc := s1, tok := t }
         | (Option.none, s1) => .ok { sc := s1, tok := t }
       else if isDigitB c || c == 45 then
